@@ -50,6 +50,11 @@ CHECKS = {
             'observable / shift, alone and inside a repeated block) and library constructors are exported; the exported program (REPEAT unrolled, fused targets split) must equal the '
             'reference translation of the listing instruction by instruction, and before/after unrolling agree as required.',
             'bounded program spaces; reference translator mc/ref/stim_tr.py; Stim trusted as parser/printer'),
+    'C11': (MC, '4/C11', 'explicit-state exploration of nested build programs + exhaustive box of library constructor inputs',
+            'All N2(2), N1(3) and two-level programs are flattened (as built / after unrolling): multiset of (kind, qubits, duration, tag) unchanged, no sub-circuit left, idempotent. '
+            'For every modifier-applied repetition-code circuit in the constructor box (distance x cycles x refocusing x state) and multi-round circuits: listing order, schedule, '
+            'acquisition indices and exported Stim program compared before/after flatten().',
+            'bounded program spaces and constructor box; identity clauses for library circuits only'),
 }
 
 
